@@ -47,6 +47,7 @@ def _case(draw):
         case["epochs"] = draw(st.integers(1, 3))
         case["n_train"] = draw(st.integers(20, 60))
         case["bounded"] = draw(st.booleans())
+        case["save_flow"] = draw(st.booleans())
         return case
     base = draw(rc.run_case(samplers=[comp]))
     base.update(case)
@@ -93,7 +94,19 @@ def _flow_run(case, seed):
     a = Aspire(log_likelihood=log_likelihood, log_prior=log_prior, dims=d, parameters=params, flow_backend=backend,
                prior_bounds={p: [0.0, 1.0] for p in params} if case["bounded"] else None, xp=xp, dtype=case["width"], **kw)
     fit_kw = {"n_epochs": case["epochs"], "batch_size": 16} if backend == "zuko" else {"max_epochs": case["epochs"], "batch_size": 16, "show_progress": False}
-    hist = a.fit(Samples(data, xp=xp, dtype=case["width"]), **fit_kw)
+    if case.get("save_flow"):
+        # the run checkpoints its proposal (fit writes the flow to a file) - saving must not disturb the random streams
+        import os
+        import shutil
+        import tempfile
+
+        tmp = tempfile.mkdtemp(prefix="c20-")
+        try:
+            hist = a.fit(Samples(data, xp=xp, dtype=case["width"]), checkpoint_path=os.path.join(tmp, "run.h5"), **fit_kw)
+        finally:
+            shutil.rmtree(tmp, ignore_errors=True)
+    else:
+        hist = a.fit(Samples(data, xp=xp, dtype=case["width"]), **fit_kw)
     out = {"train": [float(v) for v in hist.training_loss], "val": [float(v) for v in hist.validation_loss]}
     fx, flq = a.flow.sample_and_log_prob(7)
     out["flow_x"] = env.to_np(fx).copy()
@@ -110,7 +123,6 @@ _MOVED = {}
 
 
 _SECOND = {}
-_SHARED = {}
 
 
 def _sampler_run(case, seed, second=False):
@@ -122,8 +134,6 @@ def _sampler_run(case, seed, second=False):
     gen = np.random.default_rng(seed)
     kw = P.sample_kwargs()
     kw.pop("rng", None)
-    if case.get("shared_kwargs") and "sampler_kwargs" in kw:
-        kw["sampler_kwargs"] = _SHARED.setdefault("sampler_kwargs", kw["sampler_kwargs"])
     route = case["route"]
     minipcn.reset(); emcee.reset()
     minipcn.step_budget = 400
@@ -214,9 +224,13 @@ KNOWN_PREDICATES = {"emcee_ignores_rng": _known_emcee}
 
 
 def run_case(case, ctx):
+    rc.SHARED.clear()
+    rc.SHARED_ON[0] = False
     comp = case["component"]
     labels = [comp, case["ns"], str(case["width"])]
     if comp in ("zuko", "flowjax", "importance"):
+        if case.get("save_flow"):
+            labels.append("flow-saved-before-sampling")
         r1 = _flow_run(case, case["seed"])
         r2 = _flow_run(case, case["seed"])
         diff = _flat_equal(r1, r2)
@@ -227,7 +241,8 @@ def run_case(case, ctx):
             ctx.fail(f"seed-ignored:{comp}", f"a {comp} run with a different seed is identical: the seed is not used", case)
         return {"nontrivial": comp != "zuko" and comp != "flowjax" or True, "labels": labels}
     labels += ["route:" + case["route"], "pre:" + case["pre"]]
-    _SHARED.clear()
+    rc.SHARED.clear()
+    rc.SHARED_ON[0] = bool(case.get("shared_kwargs"))
     if case.get("shared_kwargs"):
         labels.append("shared-kwargs-dict")
     # (emcee is given no generator at all - the recorded finding - so a second call cannot tell anything new about it)
